@@ -28,6 +28,9 @@ type c18Case struct {
 	Recs     []gen.Rec    `json:"recs"`     // values use only code points < 256: one byte each in the single-byte input
 	Encoding string       `json:"encoding"` // iso-8859-1 | windows-1252 | utf-8
 	BOM      bool         `json:"bom"`      // utf-8 only
+	// RawBOMBytes (single-byte encodings): the input starts with the bytes EF BB BF, which in those code pages are
+	// three ordinary characters, not a byte-order mark
+	RawBOMBytes bool `json:"raw_bom_bytes,omitempty"`
 	Schedule run.Schedule `json:"schedule"`
 }
 
@@ -76,6 +79,8 @@ func genC18(t *rapid.T) c18Case {
 	}
 	if c.Encoding == "utf-8" {
 		c.BOM = rapid.Bool().Draw(t, "bom")
+	} else {
+		c.RawBOMBytes = rapid.IntRange(0, 4).Draw(t, "rawBomBytes") == 0
 	}
 	if rapid.Bool().Draw(t, "chunked") {
 		c.Schedule = run.Schedule{Sizes: []int{1}}
@@ -187,6 +192,10 @@ func checkC18(c c18Case) obs.Result {
 	single, ok := c18SingleByte(text)
 	if !ok {
 		return obs.Result{Excluded: "value outside the single-byte range"}
+	}
+	if c.RawBOMBytes {
+		single = append([]byte{0xEF, 0xBB, 0xBF}, single...)
+		classes = append(classes, "bom-bytes-in-single-byte-encoding")
 	}
 	sEnc := c.Shape
 	sEnc.Encoding = c.Encoding
